@@ -374,6 +374,15 @@ static unsigned long seq_state_key(void)
 	for (i = 0; i < norder; i++)
 		h = vrt_mix(h, (unsigned long)node_key[order_seq[i]] + 1);
 	h = vrt_mix(h, ht->size);
+	/* allocator-internal state the table does not show: levels above the current size that were populated once and released again
+	 * (a later grow re-uses what the release left behind) - abstracted by the largest size reached so far */
+	{
+		static unsigned long peak_size;
+
+		if (ht->size > peak_size)
+			peak_size = ht->size;
+		h = vrt_mix(h, peak_size);
+	}
 	h = vrt_mix(h, ht->resize_target);
 	h = vrt_mix(h, (unsigned long)ht->resize_initiated);
 	h = vrt_mix(h, (unsigned long)ht->count);
